@@ -57,8 +57,9 @@ type failure struct {
 	quirk   string // set for the probe of a known-defect trigger
 }
 
+// stepSeed is constant along a chain: the names of an evolving schema stay put.
 func stepSeed(ch *chain, st *genStep) int64 {
-	return ch.Seed*1000003 + int64(ch.Start)*101 + int64(st.Step)
+	return ch.Seed*1000003 + int64(ch.Start)*101
 }
 
 func runTLC(c *vlib.Check) []*chain {
@@ -179,6 +180,13 @@ type runner struct {
 func (r *runner) runChain(ch *chain) {
 	name := fmt.Sprintf("c17_%03d", ch.Start)
 	root := removeGen(name)
+	// nothing is left behind inside the harness module (a project that does not compile would
+	// break `go build ./...` there); the replay object carries every file of a failing point
+	defer func() {
+		if os.Getenv("C17_KEEP") == "" {
+			_ = os.RemoveAll(root)
+		}
+	}()
 	base := projgen.ImportBase(name)
 	for _, st := range ch.Steps {
 		p := projgen.C17Render(root, base, st.Row, stepSeed(ch, st), ch.NFiles)
@@ -215,9 +223,6 @@ func (r *runner) runChain(ch *chain) {
 		r.fails = append(r.fails, &failure{ch: ch, step: st, out: out, project: p, quirk: st.Row.Probe()})
 		r.mu.Unlock()
 		return // later steps on a broken directory say nothing
-	}
-	if os.Getenv("C17_KEEP") == "" {
-		_ = os.RemoveAll(root)
 	}
 }
 
@@ -330,7 +335,14 @@ func (r *runner) report(fs []*failure) {
 		}
 		groups[k] = append(groups[k], f)
 	}
-	sort.Strings(order)
+	// unknown failures first (they are minimised, at most maxGroups of them)
+	sort.Slice(order, func(i, j int) bool {
+		qi, qj := !strings.HasPrefix(order[i], "|"), !strings.HasPrefix(order[j], "|")
+		if qi != qj {
+			return !qi
+		}
+		return order[i] < order[j]
+	})
 	type res struct {
 		key, detail string
 		scen        any
